@@ -369,12 +369,23 @@ def parent_main(pid: str, tier: str, seed: int, only: str | None = None, nshards
                "--nshards", str(nshards), "--out", str(out), "--seed", str(seed)]
         if only:
             cmd += ["--only", only]
-        procs.append((sh, out, subprocess.Popen(cmd, cwd=str(ROOT), env=_env(), stdout=subprocess.PIPE,
-                                                stderr=subprocess.STDOUT, text=True)))
+        # (the shard's output goes to a file, not a pipe: the shards are collected one after the other, and a shard that has
+        #  filled a pipe nobody is reading yet would stand still until its turn - chatty thorough runs were serialised that way)
+        logf = open(workdir / f"shard{sh}.log", "w")
+        procs.append((sh, out, subprocess.Popen(cmd, cwd=str(ROOT), env=_env(), stdout=logf, stderr=subprocess.STDOUT, text=True), logf))
     errors: list[str] = []
     merged: dict[str, dict] = {}
-    for sh, out, p in procs:
-        so, _ = p.communicate()
+    for sh, out, p, logf in procs:
+        p.wait()
+        logf.close()
+        logp = workdir / f"shard{sh}.log"
+        try:
+            with open(logp, "rb") as fh:
+                fh.seek(max(0, logp.stat().st_size - 4000))
+                so = fh.read().decode("utf-8", "replace")
+            logp.unlink()
+        except OSError:
+            so = ""
         if p.returncode != 0 or not out.exists():
             errors.append(f"shard {sh} exited {p.returncode}: {so[-2000:]}")
             continue
